@@ -4,13 +4,18 @@ import Blue.Driver.Util
     the real `KeyValueStore` under client, flush and compaction threads, as recorded by the
     `lsmtk::verif` event hooks, replayed through `Blue.KvsConc.step`.  Every event must be enabled;
     the first one that is not is reported (`stuck@<index>:<token>`); an insert into a table the
-    flush thread has already taken is reported as `insert-into-flushed-table@…`.
+    flush thread has already taken is reported as `insert-into-flushed-table@…`.  The hypothesis of
+    `snapshot_tree_consistent` is checked on the trace: between a reader's `T` and its `S` no step
+    that needs the store mutex may occur, and the snapshot must be clean — otherwise
+    `stuck@<index>:tree-snapshot-outside-lock`.
 
     tokens  `B<seq>,<mem>,<k>=<v>;<k>!;…` write began (sequence number, memtable picked, batch)
             `L<seq>` log appended   `I<seq>,<idx>` entry inserted   `F<seq>` left the wait list
             `R<new>,<old>` rotate mem→imm   `H<new>` flush thread passed the wait list
-            `N<old>` version with the flushed file installed   `C<old>` imm cleared
-            `S<rid>,<ts>,<mem>,<imm 0|1>` reader snapshot
+            `N<old>,<vid>` tree version `vid` with the flushed file installed   `C<old>` imm cleared
+            `V<vid>` tree version `vid` installed by a compaction
+            `T<rid>,<vid>` reader `rid` cloned the installed tree version, number `vid`
+            `S<rid>,<ts>,<mem>,<imm 0|1>` reader took mem, imm and its timestamp
             `G<rid>,<key>` lookup of one key in snapshot `rid`       → `<rid>=<value|->`
             `Q<rid>,<lo>,<hi>` the part `lo..=hi` of a scan of snapshot `rid` → `<rid>=[k:v,…]`
     answer  `ok obs=<…>;<…> end=seq:<n>,ts:<n>,mem:<n>,imm:<0|1>,q:<n>,open:<n>` -/
@@ -58,7 +63,15 @@ def parseTok (t : String) : Option Tok :=
     | some [n, o] => some (.ev (.fRotate n o))
     | _ => none
   | 'H' :: rest => (optNat (String.ofList rest)).map (fun q => .ev (.fHead q))
-  | 'N' :: rest => (optNat (String.ofList rest)).map (fun q => .ev (.fInstall q))
+  | 'N' :: rest =>
+    match nats (String.ofList rest) with
+    | some [o, v] => some (.ev (.fInstall o v))
+    | _ => none
+  | 'V' :: rest => (optNat (String.ofList rest)).map (fun q => .ev (.tInstall q))
+  | 'T' :: rest =>
+    match nats (String.ofList rest) with
+    | some [rid, v] => some (.ev (.rTree rid v))
+    | _ => none
   | 'C' :: rest => (optNat (String.ofList rest)).map (fun q => .ev (.fClear q))
   | 'S' :: rest =>
     match nats (String.ofList rest) with
@@ -111,7 +124,22 @@ def replay : St → Nat → List String → List String → String
       let closed := match e with
         | .wIns q _ => !(insertsIntoOpenTable s q)
         | _ => false
-      if dup then s!"panic-dup-insert@{i}:{t} obs={rObs obs}"
+      -- a reader holds a tree version and has not yet taken mem / imm: in the code that is inside
+      -- one critical section of the store mutex, so no other step that needs that mutex can follow
+      let owner : Option Nat := match e with
+        | .rSnap rid _ _ _ => some rid
+        | .rTree rid _ => some rid
+        | _ => none
+      let needsMutex := match e with
+        | .wBegin .. | .wFin _ | .fRotate .. | .fHead _ | .fClear _ | .rSnap .. | .rTree .. => true
+        | _ => false
+      let outside := needsMutex && s.trees.any (fun p => some p.1 != owner)
+      -- … and the snapshot it ends up with must be clean (no `imm := none` in between)
+      let unclean := match e with
+        | .rSnap rid _ _ _ => (s.trees.find? (fun p => p.1 = rid)).any (fun p => !p.2.2)
+        | _ => false
+      if outside || unclean then s!"stuck@{i}:tree-snapshot-outside-lock"
+      else if dup then s!"panic-dup-insert@{i}:{t} obs={rObs obs}"
       else if closed then s!"insert-into-flushed-table@{i}:{t}"
       else
         match step s e with
